@@ -414,6 +414,8 @@ class Lowerer:
         return self.ptype(t.get('desugaredQualType') or t['qualType'])
 
     def lowered(self, t):
+        if t[0] == 'ref' and t[1][0] in ('str', 'strview'):
+            return t[1]          # strings are values (token lists) in the IR
         return ('ptr', t[1]) if t[0] == 'ref' else t
 
     def record(self, canon):
@@ -728,7 +730,9 @@ class Lowerer:
                 if not inits:
                     raise Unsupported('default argument of %s not in AST' % f.qualname)
                 a = inits[0]
-            if pt[0] == 'ref':
+            if pt[0] == 'ref' and pt[1][0] in ('str', 'strview'):
+                out.append(self.rv(a))
+            elif pt[0] == 'ref':
                 out.append(self.addr_of(self.lv(a)))
             else:
                 out.append(self.rv(a))
@@ -840,6 +844,8 @@ class Lowerer:
             out = [('decl', nm, lt, None)]
             out += self.init_into(('var', lt, nm), e)
             return out
+        if t[0] == 'ostream':
+            return [('decl', nm, lt, None)]
         return [('decl', nm, lt, self.rv(e))]
 
     # ------------------------------------------------------------------ expressions
@@ -864,10 +870,12 @@ class Lowerer:
                 src = self.ntype(ch)
                 dst = self.ntype(n)
                 base = self.lv(ch)
-                if src[0] == 'iter':
+                if src[0] in ('iter', 'ostream'):
                     return base
                 return self.to_base(base, src, dst)
             raise Unsupported('lvalue cast %s' % ck)
+        if k == 'MaterializeTemporaryExpr' and self.ntype(n)[0] in ('str', 'strview'):
+            return self.rv(kids(n)[0])
         if k == 'MaterializeTemporaryExpr':
             ch = kids(n)[0]
             t = self.ntype(n)
@@ -935,6 +943,8 @@ class Lowerer:
                 raise Unsupported('parameter %s not of current function' % rd.get('name'))
             t = f.ptypes[rid]
             nm = f.pnames[rid]
+            if t[0] == 'ref' and t[1][0] in ('str', 'strview'):
+                return ('var', t[1], nm)
             if t[0] == 'ref':
                 return ('deref', t[1], ('var', ('ptr', t[1]), nm))
             return ('var', t, nm)
@@ -954,6 +964,13 @@ class Lowerer:
         """Namespace-scope constants (Standard<U>, Pi<T>, RelatedDimensions<U>, Dimensionless, ...):
         replaced by their initialiser (they are const/constexpr)."""
         node = self.ast.byid.get(rd['id'])
+        if node is None and rd.get('name') == 'max_digits10':
+            # std::numeric_limits<NumericType>::max_digits10 (a std declaration, not dumped): fixed by the numeric
+            # type of the enclosing instantiation (float 9, double 17, x87 long double 21)
+            fts = [pt for _, pt in self.cur.params if pt[0] == 'f']
+            if len(set(fts)) != 1:
+                raise Unsupported('max_digits10: numeric type of the enclosing function is not unique')
+            return ('const', self.ntype(n), {'float': 9, 'double': 17, 'long double': 21}[fts[0][1]])
         if node is None:
             raise Unsupported('global %s not in AST' % rd.get('name'))
         t = self.ntype(node)
@@ -1094,12 +1111,16 @@ class Lowerer:
                 return v
             return ('cast', t, v)
         if ck in ('UncheckedDerivedToBase', 'DerivedToBase'):
+            if t[0] == 'ptr' and t[1][0] == 'ostream':
+                return self.rv(ch)
             if t[0] == 'ptr':
                 p = self.rv(ch)
                 src = self.ntype(ch)
                 l = self.to_base(self.deref(p), src[1], t[1])
                 return self.addr_of(l)
-            if t[0] == 'iter':
+            if t[0] in ('iter', 'ostream'):
+                return self.rv(ch)
+            if t[0] == 'ptr' and t[1][0] == 'ostream':
                 return self.rv(ch)
             return self.to_base(self.rv(ch), self.ntype(ch), t)
         if ck == 'ArrayToPointerDecay':
@@ -1149,6 +1170,11 @@ class Lowerer:
         if t[0] == 'rec':
             if len(ks) == 1:
                 return self.rv(ks[0])
+        if t[0] in ('str', 'strview'):
+            if not ks:
+                return ('toks', ('str',), [])
+            if len(ks) == 1:
+                return self.rv(ks[0])
         raise Unsupported('InitListExpr of type %s' % (t,))
 
     def construct(self, n):
@@ -1178,6 +1204,8 @@ class Lowerer:
             raise Unsupported('string_view construction')
         if t[0] in ('iter', 'fn') and len(args) == 1:
             return self.rv(args[0])
+        if t[0] == 'ostream' and not args:
+            return self.tmp(t)
         if t[0] != 'rec':
             raise Unsupported('construction of %s' % (t,))
         ctor = self.find_ctor(n, t[1])
@@ -1192,17 +1220,25 @@ class Lowerer:
         cargs = [('addr', ('ptr', t), tv)] + self.bind_args(f, ctor, args)
         return ('seq', t, [('expr', ('call', VOID, f.cname, cargs))], tv)
 
-    # strings are handled in strings.py (mixed in)
+    # ------------------------------------------------------------------ strings (token abstraction)
+    def cat(self, *parts):
+        toks = []
+        for p in parts:
+            if p[0] == 'toks':
+                toks += p[2]
+            else:
+                toks.append(('SUB', p))
+        return ('toks', ('str',), toks)
+
     def str_construct(self, n, args):
+        args = [a for a in args if a.get('kind') != 'CXXDefaultArgExpr']
         if not args:
             return ('toks', ('str',), [])
-        if len(args) >= 1:
+        if len(args) == 1:
             a = self.rv(args[0])
-            if a[0] == 'toks':
+            if a[0] == 'toks' or a[1][0] in ('str', 'strview'):
                 return a
-            if a[1][0] in ('str', 'strview'):
-                return a
-        raise Unsupported('std::string construction')
+        raise Unsupported('std::string construction from %d arguments' % len(args))
 
     # ------------------------------------------------------------------ calls
     def callee_of(self, n):
@@ -1311,6 +1347,17 @@ class Lowerer:
         return False
 
     def special_call(self, n, node, name, obj, args):
+        """Token abstraction of the two text leaves: PhQ::Print(number) -> NUM(value), PhQ::Abbreviation(e) -> ABBR(e)."""
+        if obj is None and node.get('kind') == 'FunctionDecl' and len(args) == 1:
+            par = self.ast.up(node)
+            ns = self.ast.up(par) if par is not None and par.get('kind') == 'FunctionTemplateDecl' else par
+            if ns is not None and ns.get('kind') == 'NamespaceDecl' and ns.get('name') == 'PhQ':
+                at = self.ntype(args[0])
+                at = at[1] if at[0] == 'ref' else at
+                if name == 'Print' and at[0] == 'f':
+                    return ('toks', ('str',), [('NUM', self.rv(args[0]))])
+                if name == 'Abbreviation' and at[0] == 'enum':
+                    return ('toks', ('str',), [('ABBR', at[1], self.rv(args[0]))])
         return None
 
     def iterator_of(self, base):
@@ -1425,9 +1472,72 @@ class Lowerer:
             return self.lv(args[0]) if cat != 'prvalue' else self.rv(args[0])
         if name in ('operator==', 'operator!=') and len(args) == 2 and self.ntype(args[0])[0] == 'iter':
             return ('bin', BOOL, name[-2:], self.rv(args[0]), self.rv(args[1]))
-        if name in ('operator+', 'operator<<', 'to_string', 'operator==', 'operator!='):
+        if name in ('operator+', 'operator<<', 'to_string', 'operator==', 'operator!=', 'setprecision'):
             return self.str_call(n, name, obj, args)
         raise Unsupported('library function %s %s' % (name, rd.get('type', {}).get('qualType')))
 
     def str_call(self, n, name, obj, args):
-        raise Unsupported('string operation %s (strings not enabled)' % name)
+        t = self.ntype(n)
+        if obj is not None:
+            kind, b, bt = obj
+            base_t = bt[1] if bt[0] in ('ptr', 'ref') else bt
+            if base_t[0] in ('str', 'strview'):
+                core = self._skip(b)
+                while core.get('kind') in ('ImplicitCastExpr',) and core.get('castKind') == 'NoOp':
+                    core = self._skip(kids(core)[0])
+                is_var = core.get('kind') == 'DeclRefExpr'
+                if name in ('append', 'operator+='):
+                    arg = self.rv(args[0])
+                    if is_var:
+                        l = self.declref(core)
+                        return ('asg', ('str',), l, self.cat(l, arg))
+                    return self.cat(self.rv(b), arg)
+                if name == 'empty':
+                    return ('lib', BOOL, 'str_empty', [self.rv(b)])
+                if name in ('operator basic_string_view', 'operator std::basic_string_view<char, std::char_traits<char>>', 'c_str', 'data'):
+                    return self.rv(b)
+                if name.startswith('operator ') and 'string_view' in name:
+                    return self.rv(b)
+                raise Unsupported('std::string member %s' % name)
+            if base_t[0] == 'ostream':
+                sp = self.deref(b) if kind == 'P' else self.lv(b)
+                if name == 'str':
+                    return ('lib', ('str',), 'os_str', [self.addr_of(sp)])
+                if name == 'operator<<':
+                    return self.os_put(sp, args[0])
+                raise Unsupported('ostream member %s' % name)
+            raise Unsupported('library member %s on %s' % (name, tstr(base_t)))
+        if name == 'operator+' and len(args) == 2:
+            return self.cat(self.rv(args[0]), self.rv(args[1]))
+        if name == 'to_string' and len(args) == 1:
+            return ('toks', ('str',), [('INT', self.rv(args[0]))])
+        if name == 'operator<<' and len(args) == 2 and self.ntype(args[0])[0] == 'ostream':
+            return self.os_put(self.lv(args[0]), args[1])
+        if name == 'setprecision' and len(args) == 1:
+            return ('lib', ('lib', '_Setprecision'), 'setprecision', [self.rv(args[0])])
+        raise Unsupported('string operation %s' % name)
+
+    def os_put(self, stream_l, argnode):
+        """stream << x : returns the stream lvalue after recording what was inserted."""
+        a = self._skip(argnode)
+        core = a
+        while core.get('kind') == 'ImplicitCastExpr':
+            core = self._skip(kids(core)[0])
+        sp = self.addr_of(stream_l)
+        OS = ('ostream',)
+        if core.get('kind') == 'DeclRefExpr' and core['referencedDecl'].get('kind') == 'FunctionDecl':
+            mn = core['referencedDecl'].get('name')
+            if mn not in ('fixed', 'scientific'):
+                raise Unsupported('stream manipulator %s' % mn)
+            return self.deref(('lib', ('ptr', OS), 'os_manip', [sp, ('const', INT, 1 if mn == 'fixed' else 2)]))
+        v = self.rv(a)
+        vt_ = v[1]
+        if vt_[0] == 'lib' and '_Setprecision' in vt_[1]:
+            return self.deref(('lib', ('ptr', OS), 'os_prec', [sp, v[3][0]]))
+        if vt_[0] == 'f':
+            return self.deref(('lib', ('ptr', OS), 'os_num', [sp, v]))
+        if vt_[0] in ('i', 'bool'):
+            return self.deref(('lib', ('ptr', OS), 'os_int', [sp, v]))
+        if vt_[0] in ('str', 'strview') or v[0] == 'toks':
+            return self.deref(('lib', ('ptr', OS), 'os_str_put', [sp, v]))
+        raise Unsupported('stream insertion of %s' % (vt_,))
